@@ -61,6 +61,8 @@ def agg (op : String) (vs : List Val) : Val :=
   -- COUNT is rendered as SUM(CASE WHEN x IS NOT NULL THEN 1 ELSE 0 END), sizes as SUM(1): NULL over no rows
   | "count" => if vs.isEmpty then .null else .num (nonNull vs).length
   | "size" | "_size" | "_count" => if vs.isEmpty then .null else .num vs.length
+  -- any / all are MAX / MIN over a CASE: NULL over no rows
+  | "any" | "all" => if vs.isEmpty then .null else Theta.agg op vs
   | _ => Theta.agg op vs
 
 def runFold (f : Rat → Rat → Rat) (vs : List Val) (pos : Nat) : Val :=
